@@ -76,7 +76,7 @@ def jobs(tier):
         for n in sizes:
             J([['read', n, 1, 0, 1]], seed_key=sk)
             J([['write', n, 1]], seed_key=sk)
-        for (n, size) in [(2, 2), (4, 4), (8, 8), (4, 2), (8, 2), (8, 4), (16, 8), (12, 4), (20, 2)]:
+        for (n, size) in [(1, 1), (4, 1), (9, 1), (20, 1), (2, 2), (4, 4), (8, 8), (4, 2), (8, 2), (8, 4), (16, 8), (12, 4), (20, 2)]:
             for signed in (0, 1):
                 J([['read', n, size, signed, 0]], seed_key=sk)
             J([['write', n, size]], seed_key=sk)
